@@ -1099,7 +1099,15 @@ static size_t ares_calc_query_timeout(const ares_query_t   *query,
    * retry from the last retry */
   rounds = (query->try_count / num_servers);
   if (rounds > 0) {
-    timeplus <<= rounds;
+    /* Saturate at the largest timeout an option can express instead of
+     * shifting bits out (or shifting by more than the width of the type,
+     * which is undefined behavior) */
+    if (rounds >= sizeof(int) * CHAR_BIT - 1 ||
+        timeplus > ((size_t)INT_MAX >> rounds)) {
+      timeplus = (size_t)INT_MAX;
+    } else {
+      timeplus <<= rounds;
+    }
   }
 
   if (channel->maxtimeout && timeplus > channel->maxtimeout) {
